@@ -722,6 +722,8 @@ class Sample:
                 muts[pos, op].append(
                     (mean(mq for mq, _ in items), mean(q for _, q in items))
                 )
+                if pos in self.phaseable:
+                    phase[pos] = op
 
         if self._indel_sites_eqs:  # long-read hack
             for pos, op in self._indel_sites:
